@@ -171,7 +171,17 @@ func c07One(o *out, tmpl string, params map[string]interface{}, tag string) {
 	}
 	// every placeholder the statement was accepted with must have been bound under exactly its name
 	// (the plain lexer cannot tell the inside of a regular expression: templates with a '/' are left out)
-	if err == nil && !strings.Contains(tmpl, ";") && !strings.Contains(tmpl, "/") {
+	// (ParseStatement stops behind the statement and ignores what follows: only a text that is accepted as a whole counts)
+	whole := false
+	if err == nil {
+		safely(func() {
+			p := influxql.NewParser(strings.NewReader(tmpl))
+			p.SetParams(params)
+			_, qerr := p.ParseQuery()
+			whole = qerr == nil
+		})
+	}
+	if err == nil && whole && !strings.Contains(tmpl, ";") && !strings.Contains(tmpl, "/") {
 		sc := influxql.NewScanner(strings.NewReader(tmpl))
 		for i := 0; i < len(tmpl)+2; i++ {
 			tok, _, lit := sc.Scan()
@@ -420,6 +430,16 @@ func propC07(o *out, r *rng, thorough bool) {
 			c07One(o, t, map[string]interface{}{"": "empty", "$": "dollar"}, "dollar-name")
 			c07One(o, t, nil, "unbound")
 			c07One(o, t, map[string]interface{}{"other": int64(1)}, "unbound")
+		}
+	}
+	// two placeholders at every distance in raw tokens, one of them bound: the unbound one is reported, it never takes
+	// the other one's value (whatever the parser remembers about the tokens it has pushed back)
+	for _, sep := range []string{"", " ", "+", " +", "+ ", " + ", ",", ", ", " ,", " , ", " OR", " OR ", "OR ", " AND ", "*", " - ", " + 1 + ", " , v , ", "  ", " +  ", "+(", " = ", "=", ",$a,", " + $a + "} {
+		for _, tmpl := range []string{"SELECT $a" + sep + "$b FROM m", "SELECT v FROM m WHERE x = $a" + sep + "$b", "SELECT v FROM m WHERE $a" + sep + "$b = 1", "SELECT f($a" + sep + "$b) FROM m", "SELECT v FROM $a" + sep + "$b"} {
+			for _, ps := range []map[string]interface{}{{"a": int64(1)}, {"b": int64(1)}, {"a": "usage"}, {"b": "usage"}, {"a": int64(1), "b": int64(2)}, {"a": map[string]interface{}{"identifier": "usage"}},
+				{"b": map[string]interface{}{"regex": "^x"}}, {"a": true}} {
+				c07One(o, tmpl, ps, "two-placeholders")
+			}
 		}
 	}
 	// generated statements with a literal position replaced by a placeholder
